@@ -87,6 +87,15 @@ fn modify_x(rng: &mut Rng, x: &mut Mat) -> Vec<&'static str> {
         }
         mods.push("constant-feature");
     }
+    if rng.bool(0.1) {
+        // pairwise distinct values in an order that drives the library's argsort into its most lopsided partitions
+        let j = rng.below(p);
+        let col = scverif::gen::sort_killer(n, rng.bool(0.5));
+        for i in 0..n {
+            x.set(i, j, col[i]);
+        }
+        mods.push("sort-killer-feature");
+    }
     if rng.bool(0.2) {
         let d = rng.us(1, (n / 3).max(1));
         for _ in 0..d {
